@@ -1295,7 +1295,10 @@ func (client *client) disconnectHandler(dis *packets.Disconnect) *codes.Error {
 	}
 	client.disconnect = dis
 	// 不发送will message
-	client.cleanWillFlag = true
+	// a DISCONNECT removes the will message, unless it is MQTT 5 "Disconnect with Will Message" (0x04)
+	if !(client.version == packets.Version5 && dis.Code == codes.DisconnectWithWillMessage) {
+		client.cleanWillFlag = true
+	}
 	return nil
 }
 
